@@ -50,6 +50,10 @@ Proof. exact seal_source_is_model. Qed.
 Theorem C08_write_source_is_model : forall (stream : val) (o : outbuf) (oracle : list wr) (wire : bytes), snd (fst (fst (write_to_stream o oracle))) <> WStuck -> gen_Inner_write_to_stream ext_model ext_st_model (S (Datatypes.length oracle)) (enc_self (ob o) oracle wire) stream = (let '(ws, r, o', rest) := write_to_stream o oracle in (enc_self (ob o') rest (wire ++ ws), enc_wres r)).
 Proof. exact write_source_is_model. Qed.
 
+(* ... and the translated write loop conserves the stream: with a sealed buffer, bytes written + bytes buffered never changes *)
+Theorem C08_write_source_conserves : forall (stream : val) (o : outbuf) (oracle : list wr) (wire : bytes), snd (fst (fst (write_to_stream o oracle))) <> WStuck -> exists (ws : list N) (buf' : bytes) (rest : list wr) (r : wres), gen_Inner_write_to_stream ext_model ext_st_model (S (Datatypes.length oracle)) (enc_self (ob o) oracle wire) stream = (enc_self buf' rest (wire ++ ws), enc_wres r) /\ match r with | WOk => (wire ++ ws) ++ buf' = wire ++ ob o | WIoErr => buf' = ob o /\ (exists k : nat, ws = firstn k (ob o)) | WStuck => False end.
+Proof. exact write_source_conserves. Qed.
+
 (* non-vacuity: a client close in a reachable state - the Close is queued and seals the buffer,
    the server's CloseOk completes it: ClientClosed, done, result Ok, every queue told *)
 Example C08_example :
@@ -71,6 +75,7 @@ Check C08_close_reports_root_cause : forall (req : req_res) (e : N), fst (close_
 Check C08_close_ok_iff : forall (req : req_res) (io : io_end), fst (close_impl true req io) = COk <-> io = IoOk /\ req = ReqOk.
 Check C08_seal_source_is_model : forall (o : outbuf) (bs : bytes) (ch : N), gen_SealableOutputBuffer_append (b2n (ob_sealed o)) = RsOk "SealableOutputBuffer_append" [("self.buf.append#called", b2n (negb (ob_sealed o)))] /\ gen_SealableOutputBuffer_push_method (b2n (ob_sealed o)) ch = RsOk "SealableOutputBuffer_push_method" [("self.buf.push_method#called", b2n (negb (ob_sealed o)))] /\ gen_SealableOutputBuffer_push_heartbeat (b2n (ob_sealed o)) = RsOk "SealableOutputBuffer_push_heartbeat" [("self.buf.push_heartbeat#called", b2n (negb (ob_sealed o)))] /\ gen_SealableOutputBuffer_seal = RsOk "SealableOutputBuffer_seal" [("self.sealed:=", 1)] /\ ob (ob_append o bs) = (if negb (ob_sealed o) then ob o ++ bs else ob o) /\ ob_sealed (ob_append o bs) = ob_sealed o /\ ob_sealed (ob_seal o) = true /\ ob (ob_seal o) = ob o.
 Check C08_write_source_is_model : forall (stream : val) (o : outbuf) (oracle : list wr) (wire : bytes), snd (fst (fst (write_to_stream o oracle))) <> WStuck -> gen_Inner_write_to_stream ext_model ext_st_model (S (Datatypes.length oracle)) (enc_self (ob o) oracle wire) stream = (let '(ws, r, o', rest) := write_to_stream o oracle in (enc_self (ob o') rest (wire ++ ws), enc_wres r)).
+Check C08_write_source_conserves : forall (stream : val) (o : outbuf) (oracle : list wr) (wire : bytes), snd (fst (fst (write_to_stream o oracle))) <> WStuck -> exists (ws : list N) (buf' : bytes) (rest : list wr) (r : wres), gen_Inner_write_to_stream ext_model ext_st_model (S (Datatypes.length oracle)) (enc_self (ob o) oracle wire) stream = (enc_self buf' rest (wire ++ ws), enc_wres r) /\ match r with | WOk => (wire ++ ws) ++ buf' = wire ++ ob o | WIoErr => buf' = ob o /\ (exists k : nat, ws = firstn k (ob o)) | WStuck => False end.
 
 Print Assumptions C08_client_close.
 Print Assumptions C08_sealed_drops.
@@ -84,4 +89,5 @@ Print Assumptions C08_close_reports_root_cause.
 Print Assumptions C08_close_ok_iff.
 Print Assumptions C08_seal_source_is_model.
 Print Assumptions C08_write_source_is_model.
+Print Assumptions C08_write_source_conserves.
 Print Assumptions C08_example.
